@@ -461,7 +461,7 @@ func (t *shRun) forgeries(e *sgEnv, r *kc.Rng, in *shInst, outKind string) {
 		o    pairForgeOpts
 	}
 	k := in.k
-	fams := []fam{{"bind", pairForgeOpts{skip: "bind"}}, {"e33", pairForgeOpts{skip: "e33", index: r.Intn(k)}},
+	fams := []fam{{"bind", pairForgeOpts{skip: "bind"}}, {"bindX", pairForgeOpts{skip: "bindX"}}, {"bindY", pairForgeOpts{skip: "bindY"}}, {"e33", pairForgeOpts{skip: "e33", index: r.Intn(k)}},
 		{"ss", pairForgeOpts{skip: "ss", index: r.Intn(2 * k)}}, {"ss", pairForgeOpts{skip: "ss", index: k}}}
 	for _, f := range fams {
 		var pr, rec []byte
